@@ -35,7 +35,7 @@ B = 1000
 REQUIRED_BUCKETS = ["stream-begins-more-than-50-samples-after-another", "3phase-phases-begin-at-different-timestamps", "kind:flat", "kind:composed", "kind:3phase", "kind:fallback-term", "different-first-timestamps", "reader-late",
                     "reader-before-data", "burst>=20", "second-reader", "lagging-stream>=20",
                     "stream-seconds-behind-the-others", "streams-stamped-in-different-time-zones", "sub-second-input-step",
-                    "streams-begin-whole-days-apart"]
+                    "streams-begin-whole-days-apart", "stream-without-samples-for-some-timestamps-mid-run"]
 REQUIRED_COUNTERS = ["outputs_decoded", "schedules_run"]
 ASSUMPTIONS = ["all streams carry one sample per index (missing values are C13/C19)"]
 
@@ -98,7 +98,14 @@ def gen(rng: Any, tier: str, i: int) -> Any:
         # (stream, burst, loop yields, seconds of virtual time that pass before the next delivery)
         steps.append([rng.randrange(n), rng.choice([1, 1, 1, 5, 20, 35]), rng.choice([0, 0, 1, 5]),
                       rng.choice([0.0] * 12 + [0.5, 6.0, 40.0])])
-    return {"rx_limit": rx_limit, "step": step, "tzmix": rng.random() < 0.25, "kind": kind, "n": n, "groups": groups, "first": first, "N": N, "steps": steps,
+    hole = None
+    if n >= 2 and rng.random() < 0.2 and N - max(first) >= 14:
+        # one stream has no samples for a few timestamps in the middle of the run (a source that was away for a
+        # moment, an engine that skipped them while it changed to its fallback): no output can be computed for those,
+        # every other output is still computed from inputs of its own timestamp
+        k0 = rng.randint(max(first) + 3, N - 8)
+        hole = [rng.randrange(n), k0, k0 + rng.randint(0, 2)]
+    return {"hole": hole, "rx_limit": rx_limit, "step": step, "tzmix": rng.random() < 0.25, "kind": kind, "n": n, "groups": groups, "first": first, "N": N, "steps": steps,
             "reader_at": rng.choice([0, 0, 3, 10, 50]), "second_reader_at": rng.choice([None, 20, 60, 150])}
 
 
@@ -141,6 +148,11 @@ async def _drive(case: dict[str, Any], out: dict[str, Any]) -> None:
         # the same instant, written in a different zone on every stream (aware datetimes denote instants)
         return ts.astimezone(zones[i % 4]) if case.get("tzmix") else ts
 
+    hole = case.get("hole")
+
+    def _in_hole(i: int, k: int) -> bool:
+        return hole is not None and i == hole[0] and hole[1] <= k <= hole[2]
+
     nxt = list(case["first"])
     rx = None
     rx2 = None
@@ -167,7 +179,8 @@ async def _drive(case: dict[str, Any], out: dict[str, Any]) -> None:
             if rx is None and case["kind"] != "flat" and nxt[i] - case["first"][i] >= 44:
                 break  # (the not yet started outer engine's internal receivers hold 50 samples)
             k = nxt[i]
-            await senders[i].send(Sample(_stamp(i, k), Quantity(float((k + 1) * B ** i))))
+            if not _in_hole(i, k):
+                await senders[i].send(Sample(_stamp(i, k), Quantity(float((k + 1) * B ** i))))
             nxt[i] += 1
             sent += 1
         max_burst = max(max_burst, sent)
@@ -189,7 +202,8 @@ async def _drive(case: dict[str, Any], out: dict[str, Any]) -> None:
         for i in range(n):
             while nxt[i] < N and len(in_rx[i]._q) < cap - 5:  # noqa: SLF001
                 k = nxt[i]
-                await senders[i].send(Sample(_stamp(i, k), Quantity(float((k + 1) * B ** i))))
+                if not _in_hole(i, k):
+                    await senders[i].send(Sample(_stamp(i, k), Quantity(float((k + 1) * B ** i))))
                 nxt[i] += 1
     await asyncio.sleep(0.05)
     out["sent_all"] = min(nxt) >= N
@@ -294,7 +308,12 @@ def check(case: dict[str, Any], rec: Any) -> None:
             if name == "main":
                 rec.violation("no-output-at-quiescence", w2)
             continue
-        if ks != list(range(ks[0], ks[0] + len(ks))):
+        hole = case.get("hole")
+        holes = set(range(hole[1], hole[2] + 1)) if hole else set()
+        if hole:
+            rec.bucket("stream-without-samples-for-some-timestamps-mid-run")
+            w2["stream_without_samples_for"] = sorted(holes)
+        if ks != [k for k in range(ks[0], ks[-1] + 1) if k not in holes]:
             rec.violation("timestamps-skipped-repeated-or-reordered", w2)
         if name == "main" and ks[0] != align:
             rec.violation("first-output-is-not-the-alignment-point", {**w2, "alignment_point": align})
